@@ -216,9 +216,10 @@ func genMergeCase(r *rand.Rand, idx int, tier string, tmp string) *mergeCase {
 		m.Shape = "jumbo"
 		m.OutMode = []uint32{1025, 1024, 100}[r.Intn(3)]
 		k := 2 + r.Intn(2)
+		tagDV := r.Intn(2) == 0
 		for i := 0; i < k; i++ {
 			n := 700 + r.Intn(900)
-			docs, _ := gen.JumboBatch(rand.New(rand.NewSource(r.Int63())), n, fmt.Sprintf("j%d", i))
+			docs, _ := gen.JumboBatch(rand.New(rand.NewSource(r.Int63())), n, fmt.Sprintf("j%d", i), tagDV)
 			s, err := gen.BuildSeg(docs, []uint32{1025, 1024, 64}[r.Intn(3)])
 			var d *roaring.Bitmap
 			if idx != 4 {
